@@ -579,14 +579,15 @@ class Path:
         return r != z3.unsat
 
     # ---- obligations -------------------------------------------------------------------
-    def prove(self, name, atom, kind="ensures", detail=""):
-        """record one obligation `name` on this path and discharge it"""
+    def prove(self, name, atom, kind="ensures", detail="", via=None):
+        """record one obligation `name` on this path and discharge it.  `via`: for a Boolean that the unit computed from
+        answers of another back end (e.g. a conjunction of polyid zero-tests), the back end to report instead of symex"""
         t0 = time.time()
         self.obl_count += 1
         status, backend, det, wit = "unknown", "?", detail, None
         if isinstance(atom, bool):
             # decided by the symbolic executor itself (structure of the result, concrete integers, syntactic facts)
-            status, backend = ("proved" if atom else "refuted"), "symex"
+            status, backend = ("proved" if atom else "refuted"), (via or "symex")
         elif isinstance(atom, FAtom):
             backend = "polyid"
             ok = self.pc.prove_zero(atom.p) if atom.eq else self.pc.prove_nonzero(atom.p)
